@@ -25,7 +25,15 @@ TOLERANCES = {"fingerprints": "exact (NMF: 1e-9)"}
 FRAME_OK = ("KMeansL1L2",)          # classes whose fit takes a DataFrame through scikit-learn's own validation (ConstraintKMeans refuses one)
 
 
-def _fit(entry, est, data, seed, as_frame=False):
+def _fit(entry, est, data, seed, as_frame=False, wfilter=None):
+    if wfilter:
+        # the caller's warning filters are not an input of the model: the fit runs with warnings shown ("always" / "default") while the
+        # fits it is compared with run with the harness's own filter ("ignore"); nothing is printed
+        import warnings
+        with warnings.catch_warnings():
+            warnings.simplefilter(wfilter)
+            warnings.showwarning = lambda *a, **k: None
+            return _fit(entry, est, data, seed, as_frame)
     X, y, w = R.materialize(data)
     Xin = X
     if as_frame and entry.name in FRAME_OK and isinstance(X, np.ndarray) and X.ndim == 2:
@@ -74,7 +82,7 @@ def check_refit(case):
                 copied = True
             except Exception:  # noqa: BLE001
                 pass
-        X, y = _fit(entry, inst, data, seed, fr)
+        X, y = _fit(entry, inst, data, seed, fr, h[5] if len(h) > 5 else None)
         got = _fp(entry, inst, data, X, y, seed)
         fresh = clone(inst)
         Xf, yf = _fit(entry, fresh, data, seed, fr)
@@ -153,7 +161,7 @@ def _refit_cases(draw, name, tier="quick"):
     datasets = [entry.data(draw) for _ in range(nd)]
     nh = draw(st.integers(2, 4 if tier == "quick" else 6))
     spec2 = R.spec_for(name, draw, flavour) if draw(st.integers(0, 2)) == 0 else None
-    history = [[draw(st.integers(0, nd - 1)), draw(st.integers(0, 2**31 - 10)), draw(st.integers(0, 1)), draw(st.booleans()), draw(st.sampled_from(COPIES))] for _ in range(nh)]
+    history = [[draw(st.integers(0, nd - 1)), draw(st.integers(0, 2**31 - 10)), draw(st.integers(0, 1)), draw(st.booleans()), draw(st.sampled_from(COPIES)), draw(st.sampled_from([None, None, "always", "default"]))] for _ in range(nh)]
     if len(set(h[0] for h in history)) == 1:
         history[-1][0] = (history[-1][0] + 1) % nd
     return dict(cls=name, spec=spec, spec2=spec2, datasets=datasets, history=history)
